@@ -33,10 +33,6 @@ Proof. unfold ncmp. apply Z.compare_refl. Qed.
 
 Definition min3 (a b c : num) : Z := Z.min (snd a) (Z.min (snd b) (snd c)).
 
-Ltac scale3 a b c :=
-  rewrite (ncmp_scale a b (min3 a b c)), ?(ncmp_scale b c (min3 a b c)), ?(ncmp_scale a c (min3 a b c))
-    in * by (unfold min3; lia).
-
 Lemma ncmp_lt_trans a b c : ncmp a b = Lt -> ncmp b c = Lt -> ncmp a c = Lt.
 Proof.
   intros H1 H2.
